@@ -116,7 +116,10 @@ def _judge_rows(olds):
 
 def replay_pairs(run: Run, griffe, tab: Table, olds, procs: int = 1):
     """Real code on every pair (o, n), o in olds, n any signature of the table."""
+    del L.MISLOADED[:]
     mods = {i: L.visit_module(griffe, k) for i, k in tab.sig.items()}
+    if L.MISLOADED:
+        run.note(f"{tab.nn}-name alphabet: the visitor stores {len(L.MISLOADED)} signature(s) differently from their source (e.g. {L.MISLOADED[0]}); the diff clauses are judged on what is loaded")
     _G.update(griffe=griffe, tab=tab, mods=mods)
     olds = sorted(olds)
     if procs > 1:
